@@ -52,6 +52,15 @@ def recipe(c: Check):
         for k in ("NEVVISITOR", "NEVDELIVER", "NEVCLIENT", "NEVTIMEOUT", "NEVANALYSE", "NEVREPORT", "NEVCLOSE", "NEVGIVEUP"):
             if cnt2.get(k, 0) <= 0:
                 c.broken.append(dict(kind="coverage", name="driver controller never reached event %s" % k, detail=str(cnt2)))
+    # the real server/proxy.XTCPProxy (hand-over goroutine, Close) on the real Controller: close during a blocked hand-over
+    st5 = c.run_driver("xtcp", q(c.tier, 12, 60), shards=2)
+    cnt5 = c.cov.get("coq_counters", {}).get("xtcp", {})
+    if st5 is not None and cnt5:
+        for k in ("NXPROXYCLOSE", "NXHANDOVERDONE", "NXLOOPEXIT", "NXDELIVER"):
+            if cnt5.get(k, 0) <= 0:
+                c.broken.append(dict(kind="coverage", name="driver xtcp never reached event %s" % k, detail=str(cnt5)))
+        if st5.get("distribution", {}).get("requests_for_closed_proxy", 0) <= 0:
+            c.broken.append(dict(kind="coverage", name="driver xtcp sent no request for a closed proxy", detail=""))
     # OBSERVATION (runtime residue): real MakeHole for both roles over loopback UDP, instructions from the real Controller
     st3 = c.run_driver("rendezvous", 1, coq=False, timeout=q(c.tier, 120, 600))
     if st3 is not None:
@@ -95,6 +104,11 @@ def recipe(c: Check):
              "timeouts, owner answers before the hand-over / twice / with unknown sids, reports for live, finished and unknown sids, "
              "owner close and re-register, owner close while a hand-over is pending (the hand-over must be given up after NatHoleTimeout: repaired F-C20b); written as the list of model events the script "
              "enforces plus observation points (session table, inbox of every transporter) and replayed through ctl_step. "
+             "xtcp driver: the real server/proxy.XTCPProxy (Run's hand-over goroutine, Close) on the real Controller, its GetWorkConnFn "
+             "held by the harness (empty pool): close while idle / while a hand-over is blocked / with a second visitor queued behind "
+             "it / followed by an immediate re-registration of the name; after Close has returned a pre-check and a correctly signed "
+             "request for the closed proxy; events EvListen/EvProxyClose/EvDeliver/EvHandoverDone/EvLoopExit and observations of the "
+             "session table, inboxes and registered names replayed through the model. "
              "sleepdelete driver (background, real time): an error-pair session and a mode-0 session are watched through the 30 s / 35 s "
              "post-response sleep until the table is empty (EvSleepDone). rendezvous driver = OBSERVATION, not proof: three "
              "address pairs walk the real Controller through all 28 rows of the five tables; real nathole.MakeHole runs for both "
